@@ -11,6 +11,7 @@ PROP = "C10"
 DRIVERS = ["drv_serial"]
 LEAN_TARGETS = ["Pyrtma.Props.C10"]
 LEVEL = "proof"
+ISOLATE = True          # the real code runs in a forked child (check: `run_isolated`): a segfault still ends in a verdict
 
 
 def _f3(clause: str, case: Any) -> bool:
@@ -56,8 +57,9 @@ def _cases(seed: int, deep: bool):
         cls = next((c for c in classes if c.__name__ == body["class"]), None)
         if cls is not None:
             yield cls, body["style"], body["subseed"]
+    import ctypes
     for ci, cls in enumerate(classes):
-        for style in STYLES + (["rnd"] * 12 if deep else []):
+        for style in (["default"] if ctypes.sizeof(cls) == 0 else STYLES + (["rnd"] * 12 if deep else [])):
             for r in range(reps if style in ("rnd", "sparse") else 1):
                 yield cls, style, rng.getrandbits(48)
 
@@ -85,11 +87,11 @@ def run(res: C.Result, deep: bool):
     def collect():
         for fut, mt in pending:
             out = C.parse_driver(fut.result())
-            for cid, (cname, style, sub, blk) in mt.items():
+            for cid, (cname, style, sub, blk, cmod) in mt.items():
                 r = out.get(cid)
                 if r is None:
                     raise C.MachineryError(f"driver gave no answer for case {cid}")
-                rc = {"class": cname, "style": style, "subseed": sub, "timecode": cid.endswith("tc"),
+                rc = {"class": cname, "module": cmod, "style": style, "subseed": sub, "timecode": cid.endswith("tc"),
                       "protocol": [l if len(l) < 400 else l[:400] + "..." for l in blk]}
                 for d in r["corr"]:
                     res.corr_diffs.append({"name": "corr:M5/leaf", "diff": d[:600], "case": rc})
@@ -107,14 +109,34 @@ def run(res: C.Result, deep: bool):
     for cls, style, sub in _cases(res.seed, deep):
         cid = f"s{n}"
         n += 1
-        m = SC.build(W, cls, random.Random(sub), style)
-        blk = SC.run_case(cid, cls, m)
+        def trouble(what: str, blk=()):
+            """the code under test raised where the unchanged code never does: a correspondence difference with the case as
+            replay (never a crash of the harness)"""
+            ex["harness_trouble"] = ex.get("harness_trouble", 0) + 1
+            if ex["harness_trouble"] <= 20:
+                res.corr_diffs.append({"name": "corr:M5/build", "diff": what[:400],
+                                       "case": {"class": cls.__name__, "module": cls.__module__, "style": style, "subseed": sub, "timecode": False,
+                                                "protocol": [l if len(l) < 400 else l[:400] + "..." for l in blk]}})
+        C.crumb({"class": cls.__name__, "module": cls.__module__, "style": style, "subseed": sub, "timecode": False})
+        try:
+            m = SC.build(W, cls, random.Random(sub), style)
+        except Exception as e:  # noqa: BLE001  an in-domain value was refused by the validated field API
+            trouble(f"building a {cls.__name__} (style {style}) through the validated field API raised {type(e).__name__}: {e}")
+            res.note_case((cls.__name__, style, sub), nontrivial=False)
+            continue
+        info: Dict[str, Any] = {}
+        blk = SC.run_case(cid, cls, m, info, extended=style == "default")
+        if info.get("trouble"):
+            trouble(info["trouble"], blk)
         lines += blk
-        meta[cid] = (cls.__name__, style, sub, blk)
-        if any(l.startswith("HDESC ") for l in blk) and style in ("default", "rnd"):
-            tblk = SC.run_timecode_case(cid + "tc", cls, m)
+        meta[cid] = (cls.__name__, style, sub, blk, cls.__module__)
+        if SC.is_registered_message(cls, m) and style in ("default", "rnd"):
+            info = {}
+            tblk = SC.run_timecode_case(cid + "tc", cls, m, info)
+            if info.get("trouble"):
+                trouble(info["trouble"], tblk)
             lines += tblk
-            meta[cid + "tc"] = (cls.__name__, style, sub, tblk)
+            meta[cid + "tc"] = (cls.__name__, style, sub, tblk, cls.__module__)
             ex.setdefault("timecode_header_cases", 0)
             ex["timecode_header_cases"] += 1
         res.note_case((cls.__name__, style, sub), nontrivial=style != "default")
@@ -140,7 +162,11 @@ def run(res: C.Result, deep: bool):
                 ex["from_dict_probes"][t[1]]["err" if t[2].startswith("err") else "ok"] += 1
             elif l.startswith("VER "):
                 ex.setdefault("version_probes", {"refused": 0, "accepted": 0})
-                ex["version_probes"]["refused" if l.endswith(" 1") else "accepted"] += 1
+                t = l.split()
+                ex["version_probes"]["refused" if t[3] == "1" else "accepted"] += 1
+                if len(t) > 4:
+                    ex.setdefault("version_probe_texts", {}).setdefault(t[4], 0)
+                    ex["version_probe_texts"][t[4]] += 1
         if len(res.samples) < 3 and style == "rnd" and len(blk) < 14:
             res.sample({"class": cls.__name__, "protocol": [l[:200] for l in blk]})
         nbytes += sum(map(len, blk))
@@ -168,13 +194,22 @@ def replay(body: Dict[str, Any]) -> int:
         print("nothing replayable in this file")
         return 2
     W = VC.world()
-    cls = next((c for c in SC.all_classes(W) if c.__name__ == case["class"]), None)
+    # (two classes can have the same name: the test definitions define some of the core messages again)
+    cls = next((c for c in SC.all_classes(W) if c.__name__ == case["class"] and c.__module__ == case.get("module", c.__module__)), None)
     if cls is None:
         print("class not found:", case["class"])
         return 2
-    m = SC.build(W, cls, random.Random(case["subseed"]), case["style"])
-    blk = SC.run_timecode_case("replay", cls, m) if case.get("timecode") else SC.run_case("replay", cls, m)
+    try:
+        m = SC.build(W, cls, random.Random(case["subseed"]), case["style"])
+    except Exception as e:  # noqa: BLE001
+        print(f"building the message through the validated field API raised {type(e).__name__}: {e}")
+        return 1
+    info: Dict[str, Any] = {}
+    blk = SC.run_timecode_case("replay", cls, m, info) if case.get("timecode") else \
+        SC.run_case("replay", cls, m, info, extended=case["style"] == "default")
+    if info.get("trouble"):
+        print(info["trouble"])
     out = C.run_driver("serial", blk)
     print("\n".join(l[:300] for l in blk))
     print("\n".join(out))
-    return 1 if any(" fail" in o or "CORR diff" in o for o in out) else 0
+    return 1 if info.get("trouble") or any(" fail" in o or "CORR diff" in o for o in out) else 0
